@@ -24,7 +24,7 @@ def tools(variant):
             "dumpops": common.cc_driver("dumpops", ["arith/dumpops.c"], lib)}
 
 
-EXTRACT_DEPS = ["Arith/Fmt.vo", "Arith/Constred.vo", "Arith/RtEval.vo", "Arith/Enumred.vo"]
+EXTRACT_DEPS = ["Arith/Fmt.vo", "Arith/Constred.vo", "Arith/RtEval.vo", "Arith/Enumred.vo", "Arith/EnumIndex.vo"]
 
 
 def build_model(ctx):
